@@ -1,2 +1,207 @@
--- stub: driver for C08 not written yet
-def main : IO Unit := pure ()
+import CMacVerif.Model.Atomics
+import CMacVerif.Util.Bits
+/-!
+Line-protocol driver for C08 (core Lean only).  One op line = one scenario:
+
+  `S <size> <cap> <nlocks> <nqueues> <nctr> T <d0> <d1> <d0> <d1> … | <calls of thread 0> | … | X <schedule digits>`
+  `S …                                      T …                    | …                    | F <seed>`
+
+`-` is a null dependency.  Calls: `g gs f:j fb:j ap:j:n l:k tl:k u:j lt:t ut:j a:q:t p:q tp:q qs:q
+i:c d:c pi:c pa:c:v oa:c:v ps:c:v ld:c lf:c:v`.
+
+`X`: the schedule names the thread that performs the next atomic operation (a finished thread is
+skipped); after the schedule the threads are completed round-robin (bounded).  Output: the
+results in schedule order, then the final shared state.
+`F`: the implementation runs the threads freely; only schedule-independent facts are printed
+(the model runs round-robin; `counter_linear` says the result does not depend on the schedule).
+-/
+open CMacVerif CMacVerif.Util CMacVerif.Atomics
+
+def int! (s : String) : Int :=
+  if s.startsWith "-" then - ((s.drop 1).toNat?.getD 0 : Nat) else (s.toNat?.getD 0 : Nat)
+
+def optNat (s : String) : Option Nat := if s = "-" then none else s.toNat?
+
+def parseCmd (w : String) : Option Cmd :=
+  match w.splitOn ":" with
+  | ["g"] => some .get
+  | ["gs"] => some .getSafe
+  | ["f", j] => some (.free (nat! j))
+  | ["fb", j] => some (.freeBuf (nat! j))
+  | ["ap", j, n] => some (.addPhotons (nat! j) (nat! n))
+  | ["l", k] => some (.lock (nat! k))
+  | ["tl", k] => some (.tryLock (nat! k))
+  | ["u", j] => some (.unlock (nat! j))
+  | ["lt", t] => some (.lockTask (nat! t))
+  | ["ut", j] => some (.unlockTask (nat! j))
+  | ["a", q, t] => some (.addTask (nat! q) (nat! t))
+  | ["p", q] => some (.getTask (nat! q))
+  | ["tp", q] => some (.tryGetTask (nat! q))
+  | ["qs", q] => some (.qsize (nat! q))
+  | ["i", c] => some (.inc (nat! c))
+  | ["d", c] => some (.dec (nat! c))
+  | ["pi", c] => some (.postInc (nat! c))
+  | ["pa", c, v] => some (.preAdd (nat! c) (int! v))
+  | ["oa", c, v] => some (.postAdd (nat! c) (int! v))
+  | ["ps", c, v] => some (.preSub (nat! c) (int! v))
+  | ["ld", c] => some (.load (nat! c))
+  | ["lf", c, v] => some (.lfAdd (nat! c + 100) (int! v))
+  | _ => none
+
+def showRes : Res → String
+  | .slot i => s!"s{i}"
+  | .freed i => s!"f{i}"
+  | .photons o => s!"ph{o}"
+  | .locked k ok => s!"L{k}{if ok then "+" else "-"}"
+  | .unlocked k => s!"U{k}"
+  | .taskLocked t ok => s!"TL{t}{if ok then "+" else "-"}"
+  | .taskUnlocked t => s!"TU{t}"
+  | .added q t => s!"A{q}.{t}"
+  | .popped q (some t) => s!"P{q}.{t}"
+  | .popped q none => s!"P{q}.N"
+  | .qsize q n => s!"Q{q}.{n}"
+  | .val c v => s!"V{c}.{v}"
+  | .skip => "K"
+
+def pcName : PC → String
+  | .idle => "idle" | .getCheck _ => "getCheck" | .getInc _ => "getInc" | .getCas _ _ => "getCas"
+  | .getCount _ _ => "getCount" | .getMax _ _ _ => "getMax" | .getTotal _ _ => "getTotal"
+  | .apFill _ _ => "apFill" | .apPlace _ _ => "apPlace" | .crashed _ => "crashed"
+  | .freeReset _ => "freeReset" | .freeUnlock _ => "freeUnlock" | .freeDec _ => "freeDec"
+  | .lockSpin _ => "lockSpin" | .lockTry _ => "lockTry" | .unlockL _ => "unlockL"
+  | .tlStart _ _ => "tlStart" | .tl0 _ _ => "tl0" | .tl1 _ _ => "tl1" | .tlBack _ _ => "tlBack"
+  | .tuStart _ => "tuStart" | .tu1 _ => "tu1" | .tu0 _ => "tu0" | .addLock _ _ => "addLock" | .addBody _ _ => "addBody"
+  | .addUnlock _ _ => "addUnlock" | .popLock _ b => if b then "popLock" else "tryPopLock"
+  | .popInit _ => "popInit" | .popScan _ _ => "popScan" | .popRemove _ _ _ => "popRemove"
+  | .popUnlock _ r => if r.isSome then "popUnlockT" else "popUnlockN" | .qsz _ => "qsz"
+  | .cInc _ => "cInc" | .cDec _ => "cDec" | .cPostInc _ => "cPostInc" | .cPreAdd _ _ => "cPreAdd"
+  | .cPostAdd _ _ => "cPostAdd" | .cPreSub _ _ => "cPreSub" | .cLoad _ => "cLoad"
+  | .lfLoad _ _ => "lfLoad" | .lfCas _ _ _ => "lfCas"
+
+structure Scen where
+  cfg : Cfg
+  nlocks : Nat
+  nqueues : Nat
+  nctr : Nat
+  progs : List (List Cmd)
+  mode : String
+  sched : List Nat
+
+def pairs : List String → List (Option Nat × Option Nat)
+  | a :: b :: rest => mkDeps (optNat a) (optNat b) :: pairs rest
+  | _ => []
+
+def splitBar (ws : List String) : List (List String) :=
+  let (cur, acc) := ws.foldl (fun (p : List String × List (List String)) w =>
+    if w = "|" then ([], p.1.reverse :: p.2) else (w :: p.1, p.2)) ([], [])
+  (cur.reverse :: acc).reverse
+
+def parseScen (ws : List String) : Option Scen :=
+  match splitBar ws with
+  | [] => none
+  | hd :: rest =>
+    match hd with
+    | "S" :: size :: cap :: nl :: nq :: nc :: "T" :: deps =>
+      match rest.reverse with
+      | [m, arg] :: progsRev =>
+        let table := pairs deps
+        let progs := progsRev.reverse.map (fun p => p.filterMap parseCmd)
+        let bad := progsRev.any (fun p => p.any (fun w => (parseCmd w).isNone))
+        if bad then none else
+        some { cfg := { size := nat! size, cap := nat! cap, deps := fun t => table.getD t (none, none) },
+               nlocks := nat! nl, nqueues := nat! nq, nctr := nat! nc, progs := progs, mode := m,
+               sched := if m = "X" then arg.toList.map (fun c => c.toNat - '0'.toNat) else [] }
+      | _ => none
+    | _ => none
+
+def allFinished (s : State) : Bool := s.threads.all Thread.finished
+
+/-- one schedule entry; returns the new state, the results it produced (oldest first) and the
+transition tags -/
+def entry (cfg : Cfg) (s : State) (tid : Nat) : State × List String × List String :=
+  match s.threads[tid]? with
+  | none => (s, [], [])
+  | some th =>
+    if th.finished then (s, [], ["skip-finished"]) else
+    -- the atomic operation
+    let s1 := step cfg s tid
+    let pc1 := (s1.threads[tid]?.map (·.pc)).getD .idle
+    let tag := s!"{pcName th.pc}>{pcName pc1}"
+    let s2 := settle cfg 100000 s1 tid
+    let n0 := th.res.length
+    let th2 := (s2.threads[tid]?).getD th
+    let newRes := (th2.res.take (th2.res.length - n0)).reverse
+    let tag2 := if pcName pc1 != pcName th2.pc then [s!"{pcName pc1}>>{pcName th2.pc}"] else []
+    (s2, newRes.map (fun r => s!"{tid}:{showRes r}"), tag :: tag2)
+
+def settleAll (cfg : Cfg) (s : State) : State × List String :=
+  (List.range s.threads.length).foldl (fun (p : State × List String) tid =>
+    let th0 := (p.1.threads[tid]?).getD {}
+    let s' := settle cfg 100000 p.1 tid
+    let th1 := (s'.threads[tid]?).getD {}
+    let newRes := (th1.res.take (th1.res.length - th0.res.length)).reverse
+    (s', p.2 ++ newRes.map (fun r => s!"{tid}:{showRes r}"))) (s, [])
+
+def bits (f : Nat → Bool) (n : Nat) : String :=
+  String.ofList ((List.range n).map fun i => if f i then '1' else '0')
+
+def commaNat (l : List Nat) : String := ",".intercalate (l.map toString)
+def commaInt (l : List Int) : String := ",".intercalate (l.map toString)
+
+def finalDump (sc : Scen) (s : State) : String :=
+  let m := s.mem
+  let qs := " ".intercalate ((List.range sc.nqueues).map fun q => s!"q{q}={commaNat (m.items q)}")
+  s!"taken={m.taken} cur={m.cur} max={m.maxTaken} tot={m.totalTaken} flags={bits m.flags sc.cfg.size} " ++
+  s!"cnt={commaNat ((List.range sc.cfg.size).map m.count)} locks={bits (fun k => m.locks (.dep k)) sc.nlocks} " ++
+  s!"ql={bits (fun q => m.locks (.queue q)) sc.nqueues} {qs} ctr={commaInt ((List.range sc.nctr).map m.ctr)}"
+
+def insertSorted (x : Nat) : List Nat → List Nat
+  | [] => [x]
+  | y :: l => if x ≤ y then x :: y :: l else y :: insertSorted x l
+def sortNat (l : List Nat) : List Nat := l.foldr insertSorted []
+
+def addTags (acc : List String) (ts : List String) : List String :=
+  ts.foldl (fun a t => if a.contains t then a else t :: a) acc
+
+def runScen (sc : Scen) : String :=
+  let cfg := sc.cfg
+  let n := sc.progs.length
+  let (s0, r0) := settleAll cfg (init sc.progs)
+  let nextra := if sc.mode = "X" then 600 else 2000000
+  let sched := if sc.mode = "X" then sc.sched else []
+  -- results are accumulated newest first
+  let (s1, out, tags) := sched.foldl (fun (p : State × List String × List String) tid =>
+    let (s', r, t) := entry cfg p.1 tid
+    (s', r.reverse ++ p.2.1, addTags p.2.2 t)) (s0, r0.reverse, [])
+  let rec loop (fuel e : Nat) (p : State × List String × List String) : State × List String × List String :=
+    match fuel with
+    | 0 => p
+    | fuel + 1 =>
+      if n = 0 || allFinished p.1 then p else
+      let (s', r, t) := entry cfg p.1 (e % n)
+      loop fuel (e + 1) (s', r.reverse ++ p.2.1, addTags p.2.2 t)
+  let (s2, outR, tagsR) := loop nextra 0 (s1, out, tags)
+  let out2 := outR.reverse
+  let tags2 := tagsR.reverse
+  let stuck := (List.range n).filter fun tid => !((s2.threads[tid]?.map Thread.finished).getD true)
+  let crashed := (List.range n).filter fun tid =>
+    match s2.threads[tid]?.map (·.pc) with | some (.crashed _) => true | _ => false
+  let tagStr := ",".intercalate (tags2.filter (· ≠ "skip-finished"))
+  if sc.mode = "X" then
+    let st := (if stuck.isEmpty then "" else " STUCK " ++ commaNat stuck) ++
+              (if crashed.isEmpty then "" else " NOBUF " ++ commaNat crashed)
+    s!"{" ".intercalate out2} | {finalDump sc s2}{st} #{tagStr}"
+  else if sc.mode = "G" then s!"free-ok #{tagStr}"
+  else
+    let m := s2.mem
+    let qs := " ".intercalate ((List.range sc.nqueues).map fun q => s!"q{q}={commaNat (sortNat (m.items q))}")
+    s!"free taken={m.taken} nflags={((List.range cfg.size).filter m.flags).length} {qs} " ++
+    s!"ctr={commaInt ((List.range sc.nctr).map m.ctr)} lf={commaInt ((List.range sc.nctr).map fun c => m.ctr (c + 100))}" ++
+    (if stuck.isEmpty then "" else " STUCK") ++ s!" #{tagStr}"
+
+def stepLine (_ : Unit) (ws : List String) : Unit × String :=
+  match parseScen ws with
+  | some sc => ((), runScen sc)
+  | none => ((), "bad-op")
+
+def main : IO Unit := runDriver stepLine ()
